@@ -1513,20 +1513,30 @@ def explore(ctx, rep, rng, tier, tmpdir, events):
 
     # ---- spikes seen only in the peak RSS: run those cases again, alone, under a low address-space limit, so that the
     #      allocation fails where it is made (MemoryError with a traceback)
-    posthoc = [c for c in cases if any(o[1] == "rss" and isinstance(o[2], dict) and o[2].get("posthoc")
-                                      for o in results.get(c["id"], {}).get("ops", []))]
+    #      (the sampling watcher is racy about WHERE the main thread is when it notices: the same re-run locates the
+    #      allocation of every RSS event whose frames match no known site)
+    def unlocated(c):
+        done = []
+        for o in results.get(c["id"], {}).get("ops", []):
+            if o[1] == "rss":
+                if isinstance(o[2], dict) and o[2].get("posthoc"):
+                    return True
+                return classify(o[0], o[1], o[2], done)[0] == "unknown"
+            done.append(o[0])
+        return False
+
+    posthoc = [c for c in cases if unlocated(c)]
     if posthoc:
-        located = run_cases(posthoc[:40], tmpdir, budget, workers=8, batch=1, mem_mb=700)
+        located = run_cases(posthoc[:40], tmpdir, budget, workers=8, batch=1, mem_mb=700, rss_mb=10 ** 6)
         for c in posthoc[:40]:
             r2 = located.get(c["id"], {})
-            if any(o[1] in ("memory", "rss", "timeout") and (o[2] if not isinstance(o[2], dict) else o[2].get("sites"))
-                   for o in r2.get("ops", [])):
+            if any(o[1] == "memory" and o[2] for o in r2.get("ops", [])):
                 for o in r2["ops"]:
                     if o[1] == "memory":
                         o[1] = "rss"        # located: the allocation that made the peak
                 r2["tainted"] = True
                 results[c["id"]] = r2
-        rep.extra["posthoc_rss_spikes"] = len(posthoc)
+        rep.extra["rss_events_located_by_rerun"] = len(posthoc)
 
     # ---- evaluate
     unknown_retry = []
